@@ -32,7 +32,16 @@ def run_config(chk, config):
     want_first = tuple({"attribute_type:2": ("type16",), "secret": ("arg", "secret"), "random_vector": ("arg", "random_vector.*.value")}[x]
                        for x in spec["first_key"])
     want_chain = tuple({"secret": ("arg", "secret"), "previous_ciphertext_block": ("block",)}[x] for x in spec["chain_key"])
+    from hiding import unrecognised_keys
+    unrec = {"hide": unrecognised_keys(engh, H), "reveal": unrecognised_keys(engr, R)}
+    for n_, u in unrec.items():
+        if u:
+            chk.notes.append("undecided clauses (C12): the MD5 inputs of %s are not understood (%s); its key / XOR / chaining / "
+                             "coverage clauses are not decided" % (n_, "; ".join(u)[:160]))
+            chk.extra.setdefault("construction_not_understood", {})[n_] = u
     for name, eng, X, back in (("hide", engh, H, False), ("reveal", engr, R, True)):
+        if unrec[name]:
+            continue
         first, chain = key_facts(eng, X)
         chk.oblig(first == {want_first}, "first-key | %s" % name,
                   "%s: first key input is %s, RFC 2661 4.3 says %s" % (name, sorted(first), spec["first_key"]),
@@ -75,6 +84,8 @@ def run_config(chk, config):
     # every block is keyed and XORed (coverage), and reveal accepts every original length that fits
     from hiding import coverage_semantic
     for name, eng_, X_ in (("hide", engh, H), ("reveal", engr, R)):
+        if unrec[name]:
+            continue
         f_, ch_ = key_facts(eng_, X_)
         cp, und = coverage_semantic(eng_, X_, ch_)
         for u in und:
@@ -111,7 +122,10 @@ def run_config(chk, config):
     pf = plaintext_facts(engh, H, dests)
     n_ok = len(pf)
     probs = [p for f in pf for p in f["problems"]]
-    chk.oblig(not probs and n_ok >= 39, "plaintext | hide", "hide plaintext differs from RFC 2661 4.3: %s" % sorted(set(probs))[:2],
+    if unrec["hide"]:
+        chk.notes.append("undecided clause (C12): hide's plaintext layout (its block loops are not understood)")
+    else:
+      chk.oblig(not probs and n_ok >= 39, "plaintext | hide", "hide plaintext differs from RFC 2661 4.3: %s" % sorted(set(probs))[:2],
               {"rule": "original length(2) | value | length padding | minimal alignment; |hidden| = 16*ceil((2+|value|+|lp|)/16)", "problems": sorted(set(probs))},
               {"obligation": "hide: plaintext layout, original length = total AVP length, minimal alignment", "paths": n_ok})
     # result carries the clear attribute type of the original
